@@ -246,10 +246,10 @@ def shards(tier, seed):
     out = []
     for k in range(8):
         out.append(dict(kind='system', seed=seed * 1000 + k,
-                        n=120 if tier == 'quick' else 2500))
+                        n=120 if tier == 'quick' else 8000))
     for k in range(8):
         out.append(dict(kind='acyclic', seed=seed * 1000 + 100 + k,
-                        n=60 if tier == 'quick' else 1200))
+                        n=60 if tier == 'quick' else 4000))
     return out
 
 
